@@ -155,6 +155,8 @@ type sxSpec struct {
 	vURL     string
 	date     int64
 	expires  int64
+	dateNs   int64 // sub-second parts of the Signer's Date / Expires (the format carries whole seconds: floor)
+	expNs    int64
 	skipMI   bool
 }
 
@@ -188,7 +190,7 @@ func buildSigned(sp *sxSpec, kc *keyCert) *signedEx {
 	}
 	cu, _ := url.Parse(sp.certURL)
 	vu, _ := url.Parse(sp.vURL)
-	r.signer = &sxg.Signer{Date: time.Unix(sp.date, 0), Expires: time.Unix(sp.expires, 0), Certs: kc.certs, CertUrl: cu, ValidityUrl: vu, PrivKey: kc.key}
+	r.signer = &sxg.Signer{Date: time.Unix(sp.date, sp.dateNs), Expires: time.Unix(sp.expires, sp.expNs), Certs: kc.certs, CertUrl: cu, ValidityUrl: vu, PrivKey: kc.key}
 	if err := e.AddSignatureHeader(r.signer); err != nil {
 		r.err = "sign"
 	}
